@@ -41,7 +41,8 @@ fn descriptor_text(deps: &[String], os: &Option<String>, bp_uri: &str) -> String
 
 const FIXED_KINDS: [&str; 7] = ["libcnb:x/y", "libcnb:z", "a/../b", "/abs/dir/../p", "docker://docker.io/org/img:1.2", "https://example.com/a/../b.cnb?q=1#frag", "urn:cnb:registry:org/bp@1.0.0"];
 /// `libcnb:` references whose id can never have a packaged location (not a valid buildpack id, or reserved): an error
-const BAD_LIBCNB: [&str; 4] = ["libcnb:demo_one", "libcnb:app", "libcnb:", "libcnb:sbom"];
+// the last two: ids with a leading slash ("/x/y" is a valid id nobody has; "//x/y" has an authority and the path "/y")
+const BAD_LIBCNB: [&str; 6] = ["libcnb:demo_one", "libcnb:app", "libcnb:", "libcnb:sbom", "libcnb:/x/y", "libcnb://x/y"];
 
 /// reference: lexical normalisation of parent/rel (absolute, no '.', '..', empty segments)
 fn lexical(parent: &Path, rel: &str) -> String {
